@@ -86,9 +86,9 @@ def canon(v, depth=0):
     if v is None or isinstance(v, (bool, int, str)):
         return v
     if isinstance(v, float):
-        return repr(v)
+        return repr(float(v))         # np.float64 is a float; its own repr depends on numpy's print options
     if isinstance(v, complex):
-        return ["c", repr(v.real), repr(v.imag)]
+        return ["c", repr(float(v.real)), repr(float(v.imag))]
     if isinstance(v, np.generic):
         return canon(v.item(), depth)
     if isinstance(v, np.ndarray):
